@@ -10,7 +10,7 @@ import json
 import os
 import pkgutil
 
-from harness import core
+from harness import core, gen
 from harness.drivers.c09 import pack
 
 ELEMENT_WIDTHS = {"AccessTypes": 1, "CsbkOpcodes": 6, "DataPacketFormats": 4, "DataTypes": 4, "DefinedDataFormats": 6, "FeatureSetIDs": 8,
@@ -139,6 +139,11 @@ def run(ctx):
             p = ad.parse(name, b.copy())
             rec["dec"] = ad.extract(name, p, list(vals))
             rec["bits2"] = pack(p.as_bits())
+            if len(cases) % 2:
+                # every other case is handled by a caller that edits what it built and what it got back afterwards
+                seen = set()          # an object reachable from both is edited once
+                gen.scribble(p, seen=seen)
+                gen.scribble(o, seen=seen)
         except Exception as ex:  # noqa: failing on in-range values is an observation
             rec["err"] = type(ex).__name__
         cases.append(rec)
@@ -163,7 +168,12 @@ def run(ctx):
                 o = ad.parse(name, b.copy())
                 b1 = o.as_bits()
                 r["n1"], r["bits1"] = len(b1), pack(b1)
-                r["bits2"] = pack(ad.parse(name, b1.copy()).as_bits())
+                o2 = ad.parse(name, b1.copy())
+                r["bits2"] = pack(o2.as_bits())
+                if k % 2:
+                    seen = set()
+                    gen.scribble(o, seen=seen)
+                    gen.scribble(o2, seen=seen)
             except Exception as ex:  # noqa
                 r["outcome"] = type(ex).__name__
             raws.append(r)
